@@ -173,11 +173,11 @@ def scenarios():
                 continue
             out.append((cfg, oc))
     # expiry close to now: just expired, expired by exactly the leeway, about to expire within the leeway (all count as expired),
-    # and valid for a little more than the leeway (does not)
+    # and valid for twice the leeway (does not; the margin keeps a slow run from flipping it)
     for by in (5, 60, -30, -59):
         for oc in (["ok"], ["err"], ["5xx", "ok"]):
             out.append((mkcfg(expired_by=by), oc))
-    out.append((mkcfg(init_expired=False, valid_for=62), []))
+    out.append((mkcfg(init_expired=False, valid_for=120), []))
     out.append((mkcfg(init_expired=False), []))
     out.append((mkcfg(has_token=False), []))
     out.append((mkcfg(has_rt=False), []))            # expired, nothing to refresh with: InvalidTokenError
